@@ -1,6 +1,7 @@
 package props
 
 import (
+	"github.com/freeconf/yang/meta"
 	"fmt"
 	"os"
 	"sort"
@@ -78,6 +79,9 @@ func c11DevRun(c c11DevCase, o *hx.Obs) {
 		return
 	}
 	kind := strings.Fields(c.Deviate)[0]
+	if strings.Contains(c.Name, "+") {
+		kind = "several"
+	}
 	sig := func(clause string) string { return "deviate|" + kind + "|" + c.Name + "|" + clause }
 	if c.Error {
 		if err == nil {
@@ -184,12 +188,64 @@ func c11DevCases() []c11DevCase {
 
 func c11DeviationTests(s *hx.Session) {
 	hx.Each(s, c11Deviation, true, func(yield func(c11DevCase) bool) {
-		for _, c := range c11DevCases() {
+		cases := c11DevCases()
+		for _, c := range cases {
 			if !yield(c) {
 				return
 			}
 		}
+		// two deviate statements of different kinds in one deviation: both take effect
+		touches := func(c c11DevCase) []string {
+			var ks []string
+			ks = append(ks, c.Gone...)
+			for k := range c.Set {
+				ks = append(ks, k)
+			}
+			return ks
+		}
+		for i, a := range cases {
+			for _, b := range cases[i+1:] {
+				if a.Error || b.Error || a.Target != b.Target || a.Renumber || b.Renumber {
+					continue
+				}
+				ka, kb := strings.Fields(a.Deviate)[0], strings.Fields(b.Deviate)[0]
+				if ka == kb || ka == "not-supported;" || kb == "not-supported;" {
+					continue
+				}
+				overlap := false
+				for _, x := range touches(a) {
+					for _, y := range touches(b) {
+						// same property, or one entry of an indexed list (musts, uniques) against another
+						px, py := x, y
+						if i := strings.IndexByte(px, '['); i >= 0 && strings.Contains(px[i:], "]") && (strings.Contains(px, "/Musts[") || strings.Contains(px, "/Unique[")) {
+							px = px[:strings.LastIndex(px, "[")]
+						}
+						if i := strings.IndexByte(py, '['); i >= 0 && strings.Contains(py[i:], "]") && (strings.Contains(py, "/Musts[") || strings.Contains(py, "/Unique[")) {
+							py = py[:strings.LastIndex(py, "[")]
+						}
+						if strings.HasPrefix(px, py) || strings.HasPrefix(py, px) {
+							overlap = true
+						}
+					}
+				}
+				if overlap {
+					continue
+				}
+				both := c11DevCase{Name: a.Name + "+" + b.Name, Target: a.Target, Deviate: a.Deviate + " deviate " + b.Deviate, Set: map[string]string{}}
+				both.Gone = append(append([]string{}, a.Gone...), b.Gone...)
+				for k, v := range a.Set {
+					both.Set[k] = v
+				}
+				for k, v := range b.Set {
+					both.Set[k] = v
+				}
+				if !yield(both) {
+					return
+				}
+			}
+		}
 	})
+	hx.Each(s, c11Imported, true, c11ImpCases)
 }
 
 // TestC11DumpBase prints the flattened dump of the deviation base module (development aid).
@@ -214,4 +270,77 @@ func TestC11DumpBase(t *testing.T) {
 	for _, k := range ks {
 		fmt.Printf("%s = %q\n", k, f[k])
 	}
+}
+
+// ---- features defined by an imported module ---------------------------------------------------
+
+type c11ImpCase struct {
+	Mask int    `json:"mask"` // bit 0: a (main), bit 1: x (imp), bit 2: y (imp)
+	Cfg  string `json:"cfg"`  // allow-list | deny-list | all-on
+}
+
+const c11ImpYang = `module imp { namespace "urn:imp"; prefix i; feature x; feature y;
+ grouping g { leaf gx { if-feature x; type string; } leaf gxy { if-feature "x and not y"; type string; } leaf plain { type string; } } }`
+const c11ImpMain = `module mn { yang-version 1.1; namespace "urn:mn"; prefix m; import imp { prefix i; } feature a;
+ container top { leaf ma { if-feature a; type string; } uses i:g; leaf last { type string; } } }`
+
+func c11ImpRun(c c11ImpCase, o *hx.Obs) {
+	o.NonTrivial()
+	names := []string{"a", "x", "y"}
+	on := map[string]bool{}
+	var onList, offList []string
+	for i, f := range names {
+		if c.Mask&(1<<i) != 0 {
+			on[f] = true
+			onList = append(onList, f)
+		} else {
+			offList = append(offList, f)
+		}
+	}
+	var fs meta.FeatureSet
+	switch c.Cfg {
+	case "allow-list":
+		fs = meta.FeaturesOn(onList)
+	case "deny-list":
+		fs = meta.FeaturesOff(offList)
+	}
+	o.Class("cfg=%s", c.Cfg)
+	files := map[string]string{"imp.yang": c11ImpYang}
+	var m *meta.Module
+	var err error
+	if o.Guard("LoadModule", func() { m, err = parser.LoadModuleFromStringWithOptions(memOpener(files), c11ImpMain, parser.Options{Features: fs}) }) {
+		return
+	}
+	if err != nil {
+		o.Failf("iffeature|imported|"+c.Cfg+"|load-error", "enabled=%v (%s): load failed: %v", onList, c.Cfg, err)
+		return
+	}
+	top, _ := findDef(m, "top").(*meta.Container)
+	if top == nil || findDef(top, "plain") == nil || findDef(top, "last") == nil {
+		o.Failf("iffeature|imported|"+c.Cfg+"|collateral", "enabled=%v (%s): unguarded nodes are missing", onList, c.Cfg)
+		return
+	}
+	for leaf, want := range map[string]bool{"ma": on["a"], "gx": on["x"], "gxy": on["x"] && !on["y"]} {
+		if got := findDef(top, leaf) != nil; got != want {
+			o.Failf("iffeature|imported|"+c.Cfg+"|"+leaf, "enabled=%v (%s): leaf %s present=%v, its if-feature is %v (gx and gxy are guarded by features of the imported module that defines their grouping)", onList, c.Cfg, leaf, got, want)
+			return
+		}
+	}
+}
+
+var c11Imported = hx.Register(&hx.Check[c11ImpCase]{
+	Name: "c11-imported-features",
+	Rule: "a grouping of an imported module whose leaves are guarded by that module's features, used by the main module next to a leaf guarded by the main module's own feature; all 8 assignments x allow-list / deny-list (and all-on); enumerated completely",
+	Run:  c11ImpRun,
+})
+
+func c11ImpCases(yield func(c11ImpCase) bool) {
+	for mask := 0; mask < 8; mask++ {
+		for _, cfg := range []string{"allow-list", "deny-list"} {
+			if !yield(c11ImpCase{mask, cfg}) {
+				return
+			}
+		}
+	}
+	yield(c11ImpCase{7, "all-on"})
 }
